@@ -34,7 +34,7 @@ u64 k_x_sizeof(); void k_x_dtor(void*); bool k_x_has(void const*); PV k_x_val(vo
 void k_x_move_ctor(void*, void*); void k_x_move_assign(void*, void*); void k_x_emplace(void*, PV); void k_x_swap(void*, void*); void k_x_set(void*, PV); PV k_x_value_or_move(void*, PV);
 void k_x_copy_ctor(void*, void const*); void k_x_copy_assign(void*, void const*); PV k_x_value_or(void const*, PV);
 }
-static inline PV nd_pv() { return (PV)vf_nd_u32(); }
+static inline PV nd_pv() { return (PV)lg_nd_payload(); }
 static inline u64 nd_idx(unsigned maxv) { u64 i = vf_nd_u8(); vf_assume(i <= maxv); return i; }
 extern "C" __attribute__((noinline)) void* d_sym_block(u64 n)
 {
